@@ -276,7 +276,7 @@ class TimeStamp(TdmsType):
             remainder = np.timedelta64(1, 's') + remainder
             seconds = seconds - 1
         microseconds = int(remainder / np.timedelta64(1, 'us'))
-        second_fractions = int(microseconds * self._fractions_per_microsecond)
+        second_fractions = (microseconds << 64) // 10 ** 6
         self.bytes = _struct_pack('<Qq', second_fractions, seconds)
 
     @classmethod
